@@ -9,7 +9,7 @@ ASSUMPTIONS = rp.ASSUMPTIONS
 TRUSTED = rp.TRUSTED
 RULE = ("clean streams = sequences of frames from a pool of 19 (valid / bad-checksum / zero-length / unknown UBX, "
         "valid / bad NMEA, valid / bad-CRC / zero-length / >255-byte RTCM3) with optional preamble-free noise: all "
-        "ordered pairs exhaustively, random longer sequences; x protfilter x quitonerror{0,1} x parsing x validate. "
+        "ordered pairs exhaustively, random longer sequences; x protfilter x quitonerror{0,1} x parsing x validate x msgmode{GET,SET,POLL,SETPOLL} x parsebitfield. "
         "READ correspondence (model vs UBXReader with the real parsers' answers as oracle) + search: yielded "
         "(raw, str(parsed)) list == abstract deliver list computed by calling each protocol parser directly. "
         "non-trivial = distinct (stream, config, observation) with at least one item or report.")
@@ -28,17 +28,21 @@ def run(ctx):
     cases = []
     for i, parts in enumerate(seqs):
         stream = b"".join(f for _, f in parts)
-        cfgs = [(7, 1, True, 1)]
+        cfgs = [(7, 1, True, 1, 0, True)]
         if i % 3 == 0:
-            cfgs.append((rng.randrange(8), rng.randrange(2), rng.random() < 0.7, rng.randrange(2)))
-        for pf, qe, parsing, val in cfgs:
-            cases.append({"stream": stream, "pf": pf, "qe": qe, "parsing": parsing, "validate": val, "parts": parts})
+            cfgs.append((rng.randrange(8), rng.randrange(2), rng.random() < 0.7, rng.randrange(2), 0, True))
+        if i % 3 == 1:
+            # the reader's msgmode / parsebitfield options must reach the protocol parser of every frame
+            cfgs.append((7, rng.randrange(2), True, rng.randrange(2), rng.choice([1, 2, 3, 3]), rng.random() < 0.5))
+        for pf, qe, parsing, val, mm, bf in cfgs:
+            cases.append({"stream": stream, "pf": pf, "qe": qe, "parsing": parsing, "validate": val, "parts": parts,
+                          "msgmode": mm, "bf": bf})
     obs = rp.correspond_runs(ctx, cases, "READ")
     for c, o in zip(cases, obs):
-        exp = rp.expected_clean(c["parts"], c["pf"], c["parsing"], c["validate"])
+        exp = rp.expected_clean(c["parts"], c["pf"], c["parsing"], c["validate"], c["msgmode"], c["bf"])
         got = rp.items_key(o["items"])
         inp = {"op": "READ", "stream": c["stream"].hex(), "pf": c["pf"], "qe": c["qe"], "parsing": c["parsing"],
-               "validate": c["validate"], "kinds": [k for k, _ in c["parts"]]}
+               "validate": c["validate"], "msgmode": c["msgmode"], "parsebitfield": c["bf"], "kinds": [k for k, _ in c["parts"]]}
         if got != exp:
             ctx.fail("clean-stream-items", inp, [(r.hex(), p) for r, p in exp][:8], [(r.hex(), p) for r, p in got][:8])
         elif o["raised"] is not None:
